@@ -35,6 +35,9 @@ pub const A_EXPORTS: u32 = 256;
 pub const A_INJECT: u32 = 512;
 pub const A_ADD: u32 = 1024;
 pub const A_DATA: u32 = 2048;
+/// rich builder bodies / every local-adding API / every initialiser and memory-type variant (C12, C14, C30)
+pub const A_RICH: u32 = 4096;
+pub const A_LOCALS: u32 = 8192;
 
 pub fn vt_str(t: VT) -> &'static str {
     match t {
@@ -365,6 +368,7 @@ impl Model {
     /// final expected flat form
     pub fn expected(&self) -> Flat {
         let mut f = self.flat.clone();
+        f.retain(|k, _| !k.starts_with('~'));
         for (id, b) in &self.bodies {
             f.insert(format!("func[{}].nops", id), format!("{}", b.len()));
             for (k, op) in b.iter().enumerate() {
@@ -822,6 +826,12 @@ impl<'m, 'a> Driver<'m, 'a> {
             if a & A_NAMES != 0 {
                 kinds.push(8);
             }
+            if a & A_RICH != 0 {
+                kinds.extend([30, 30]);
+            }
+            if a & A_LOCALS != 0 {
+                kinds.extend([31, 31, 31]);
+            }
         }
         if a & A_GLOBAL != 0 {
             if a & A_ADD != 0 {
@@ -866,6 +876,8 @@ impl<'m, 'a> Driver<'m, 'a> {
             6 => self.op_add_export_fn(rng),
             7 => self.op_delete_export(rng),
             8 => self.op_set_fn_name(rng),
+            30 => self.op_build_rich_fn(rng),
+            31 => self.op_add_locals_existing(rng),
             10 | 12 => self.op_add_global(rng, k == 12),
             11 => self.op_add_imported_global(rng),
             13 => self.op_delete_global(rng),
@@ -1200,6 +1212,42 @@ impl<'m, 'a> Driver<'m, 'a> {
             let op = O::GlobalGet { global_index: gid };
             return (t, InitExpr::new(vec![InitInstr::Global(GlobalID(gid))]), vec![sym::sym_op(&op).unwrap()]);
         }
+        if self.alphabet & A_RICH != 0 {
+            match rng.below(6) {
+                0 => {
+                    let bits: u128 = (0xabcd_u128 << 100) | ((rng.next_u64() as u128) << 32) | uid as u128;
+                    let mut bytes = vec![];
+                    {
+                        use wasm_encoder::Encode;
+                        wasm_encoder::Instruction::V128Const(bits as i128).encode(&mut bytes);
+                    }
+                    let sop = sym::SymOp { bytes, refs: vec![], name: "V128Const".into() };
+                    return (VT::V128, InitExpr::new(vec![InitInstr::Value(Value::V128(bits))]), vec![sop]);
+                }
+                1 => {
+                    // funcref global initialised with ref.func of a live function that is already declared
+                    // (exported or in an element segment), so that the output can validate
+                    let declared: Vec<u32> = self
+                        .model
+                        .funcs
+                        .iter()
+                        .filter(|(_, e)| e.alive && !self.model.uses(&e.ident).is_empty())
+                        .map(|(k, _)| *k)
+                        .collect();
+                    if !declared.is_empty() {
+                        let f = *rng.pick(&declared);
+                        let op = O::RefFunc { function_index: f };
+                        return (VT::FuncRef, InitExpr::new(vec![InitInstr::RefFunc(FunctionID(f))]), vec![sym::sym_op(&op).unwrap()]);
+                    }
+                }
+                2 => {
+                    let (vt, rt) = if rng.bool() { (VT::FuncRef, wasmparser::RefType::FUNCREF) } else { (VT::ExternRef, wasmparser::RefType::EXTERNREF) };
+                    let op = O::RefNull { hty: rt.heap_type() };
+                    return (vt, InitExpr::new(vec![InitInstr::RefNull(rt)]), vec![sym::sym_op(&op).unwrap()]);
+                }
+                _ => {}
+            }
+        }
         let t = *rng.pick(&[VT::I32, VT::I64, VT::F32, VT::F64]);
         let (v, op) = match t {
             VT::I32 => (Value::I32((0x2000_0000 + uid) as i32), O::I32Const { value: (0x2000_0000 + uid) as i32 }),
@@ -1397,11 +1445,14 @@ impl<'m, 'a> Driver<'m, 'a> {
     fn op_add_local_mem(&mut self, rng: &mut Rng) -> Result<bool, (String, PanicInfo)> {
         let uid = self.model.next_uid;
         self.model.next_uid += 1;
+        let rich = self.alphabet & A_RICH != 0;
+        let shared = rich && rng.chance(1, 4);
+        let memory64 = rich && rng.chance(1, 4);
         let ty = wasmparser::MemoryType {
-            memory64: false,
-            shared: false,
+            memory64,
+            shared,
             initial: 1000 + uid as u64,
-            maximum: if rng.bool() { Some(2000 + uid as u64) } else { None },
+            maximum: if shared || rng.bool() { Some(2000 + uid as u64) } else { None },
             page_size_log2: None,
         };
         let desc = format!("{:?}", ty);
@@ -1416,7 +1467,7 @@ impl<'m, 'a> Driver<'m, 'a> {
         self.model.flat.insert(format!("memory[{}]", ident), desc);
         self.model.mems.insert(
             mid,
-            Ent { ident, alive: true, local: true, sig: None, type_id: None, imports_id: None, vt: None, mutable: false, mem64: false, added: true },
+            Ent { ident, alive: true, local: true, sig: None, type_id: None, imports_id: None, vt: None, mutable: false, mem64: memory64, added: true },
         );
         Ok(true)
     }
@@ -1424,7 +1475,10 @@ impl<'m, 'a> Driver<'m, 'a> {
     fn op_add_import_mem(&mut self, rng: &mut Rng) -> Result<bool, (String, PanicInfo)> {
         let name = self.fresh_import_name();
         let ident = sym::sanitize(&format!("IM:env.{}", name));
-        let ty = wasmparser::MemoryType { memory64: false, shared: false, initial: rng.range(1, 9) as u64, maximum: Some(64), page_size_log2: None };
+        let rich = self.alphabet & A_RICH != 0;
+        let shared = rich && rng.chance(1, 4);
+        let memory64 = rich && rng.chance(1, 4);
+        let ty = wasmparser::MemoryType { memory64, shared, initial: rng.range(1, 9) as u64, maximum: Some(64), page_size_log2: None };
         let desc = format!("{:?}", ty);
         let m = &mut *self.m;
         let n2 = name.clone();
@@ -1440,7 +1494,7 @@ impl<'m, 'a> Driver<'m, 'a> {
         self.model.flat.insert(format!("import[{}]", &ident[3..]), format!("memory {}", desc));
         self.model.mems.insert(
             mid,
-            Ent { ident, alive: true, local: false, sig: None, type_id: None, imports_id: None, vt: None, mutable: false, mem64: false, added: true },
+            Ent { ident, alive: true, local: false, sig: None, type_id: None, imports_id: None, vt: None, mutable: false, mem64: memory64, added: true },
         );
         Ok(true)
     }
@@ -1498,14 +1552,30 @@ impl<'m, 'a> Driver<'m, 'a> {
 
     fn op_add_data(&mut self, rng: &mut Rng) -> Result<bool, (String, PanicInfo)> {
         let ml: Vec<u32> = self.model.mems.iter().filter(|(_, e)| e.alive && !e.mem64).map(|(k, _)| *k).collect();
-        if ml.is_empty() {
-            return Ok(false);
-        }
-        let mid = *rng.pick(&ml);
         let uid = self.model.next_uid;
         self.model.next_uid += 1;
         let mut payload = vec![0xDA, 0x7A];
         payload.extend_from_slice(&uid.to_le_bytes());
+        let n_extra = rng.below(6);
+        payload.extend(rng.bytes(n_extra));
+        if self.alphabet & A_RICH != 0 && (ml.is_empty() || rng.chance(1, 3)) {
+            // passive segment
+            let seg = DataSegment { kind: DataSegmentKind::Passive, data: payload.clone(), tag: None };
+            let m = &mut *self.m;
+            let r = catch(move || {
+                m.add_data(seg);
+            });
+            let i = self.model.n_datas;
+            self.model.n_datas += 1;
+            self.model.log.push("add_data passive".to_string());
+            self.model.flat.insert(format!("data[{}].mem", i), "passive".into());
+            self.model.flat.insert(format!("data[{}].bytes", i), payload.iter().map(|b| format!("{:02x}", b)).collect());
+            return Self::err("Module::add_data", r);
+        }
+        if ml.is_empty() {
+            return Ok(false);
+        }
+        let mid = *rng.pick(&ml);
         let off = rng.below(64) as i32;
         let seg = DataSegment {
             kind: DataSegmentKind::Active { memory_index: mid, offset_expr: InitExpr::new(vec![InitInstr::Value(Value::I32(off))]) },
@@ -1527,6 +1597,513 @@ impl<'m, 'a> Driver<'m, 'a> {
     }
 }
 
+
+// ------------------------------------------------------------------------------------
+// C12 / C14: rich builder bodies through the Opcode helpers, and every local-adding API
+
+fn dt_str(d: DataType) -> &'static str {
+    match d {
+        DataType::I32 => "i32",
+        DataType::I64 => "i64",
+        DataType::F32 => "f32",
+        DataType::F64 => "f64",
+        DataType::V128 => "v128",
+        DataType::FuncRefNull => "funcref",
+        DataType::ExternRefNull => "externref",
+        DataType::FuncRef => "(ref func)",
+        DataType::ExternRef => "(ref extern)",
+        DataType::AnyNull => "anyref",
+        DataType::EqNull => "eqref",
+        DataType::I31Null => "i31ref",
+        _ => "?",
+    }
+}
+fn random_local_type(rng: &mut Rng) -> DataType {
+    *rng.pick(&[
+        DataType::I32,
+        DataType::I64,
+        DataType::F32,
+        DataType::F64,
+        DataType::V128,
+        DataType::FuncRefNull,
+        DataType::ExternRefNull,
+        DataType::FuncRef,
+        DataType::AnyNull,
+        DataType::I32,
+        DataType::I64,
+    ])
+}
+
+struct RichBody<'x, 'a> {
+    fb: FunctionBuilder<'a>,
+    syms: Vec<String>,
+    model: &'x Model,
+    /// (index, type) of numeric params/locals
+    vars: Vec<(u32, VT)>,
+    depth: u32,
+}
+
+fn blank_args() -> crate::props::c24_table::Args {
+    crate::props::c24_table::Args {
+        u: [0, 0],
+        w: 0,
+        bt: wirm::ir::types::BlockType::Empty,
+        bt_enc: wasm_encoder::BlockType::Empty,
+        memarg: wasmparser::MemArg { align: 0, max_align: 0, offset: 0, memory: 0 },
+        memarg_enc: wasm_encoder::MemArg { offset: 0, align: 0, memory_index: 0 },
+        ht: wirm::ir::module::module_types::HeapType::Abstract { shared: false, ty: wirm::ir::module::module_types::AbstractHeapType::Func },
+        ht_enc: wasm_encoder::HeapType::Abstract { shared: false, ty: wasm_encoder::AbstractHeapType::Func },
+    }
+}
+
+impl<'x, 'a> RichBody<'x, 'a> {
+    /// call helper `name` on the builder and record the independently expected instruction
+    fn h(&mut self, name: &str, a: &crate::props::c24_table::Args) {
+        use wasm_encoder::Encode;
+        let ok = crate::props::c24_table::apply(name, &mut self.fb, a);
+        assert!(ok, "unknown helper {}", name);
+        let exp = crate::props::c24_table::expected(name, a).expect("expected instruction");
+        let mut bytes = vec![];
+        exp.encode(&mut bytes);
+        // the operator reader checks block structure, so the two closing forms are mapped by hand
+        let op = match bytes.as_slice() {
+            [0x05] => wasmparser::Operator::Else,
+            [0x0b] => wasmparser::Operator::End,
+            _ => {
+                let mut rd = wasmparser::OperatorsReader::new(wasmparser::BinaryReader::new(&bytes, 0));
+                rd.read().expect("decode expected instruction")
+            }
+        };
+        self.syms.push(self.model.sym_injected(&op));
+    }
+    fn h0(&mut self, name: &str) {
+        self.h(name, &blank_args());
+    }
+    fn hu(&mut self, name: &str, u0: u32) {
+        let mut a = blank_args();
+        a.u[0] = u0;
+        self.h(name, &a);
+    }
+    fn konst(&mut self, t: VT, rng: &mut Rng) {
+        let mut a = blank_args();
+        match t {
+            VT::I32 => {
+                a.u[0] = rng.interesting_u32();
+                if rng.chance(1, 4) {
+                    self.h("u32_const", &a)
+                } else {
+                    self.h("i32_const", &a)
+                }
+            }
+            VT::I64 => {
+                a.w = rng.interesting_u64();
+                if rng.chance(1, 4) {
+                    self.h("u64_const", &a)
+                } else {
+                    self.h("i64_const", &a)
+                }
+            }
+            VT::F32 => {
+                a.u[0] = rng.interesting_u32();
+                self.h("f32_const", &a)
+            }
+            _ => {
+                a.w = rng.interesting_u64();
+                self.h("f64_const", &a)
+            }
+        }
+    }
+    fn push(&mut self, t: VT, rng: &mut Rng) {
+        let cands: Vec<u32> = self.vars.iter().filter(|(_, vt)| *vt == t).map(|(i, _)| *i).collect();
+        if !cands.is_empty() && rng.bool() {
+            let i = *rng.pick(&cands);
+            self.hu("local_get", i);
+        } else {
+            self.konst(t, rng);
+        }
+    }
+    fn consume(&mut self, t: VT, rng: &mut Rng) {
+        let cands: Vec<u32> = self.vars.iter().filter(|(_, vt)| *vt == t).map(|(i, _)| *i).collect();
+        match rng.below(3) {
+            0 if !cands.is_empty() => {
+                let i = *rng.pick(&cands);
+                self.hu("local_set", i)
+            }
+            1 if !cands.is_empty() => {
+                let i = *rng.pick(&cands);
+                self.hu("local_tee", i);
+                self.h0("drop")
+            }
+            _ => self.h0("drop"),
+        }
+    }
+    fn stmt(&mut self, rng: &mut Rng, has_mem0: bool) {
+        use VT::*;
+        const OPS: &[(&str, &[VT], VT)] = &[
+            ("i32_add", &[I32, I32], I32),
+            ("i32_sub", &[I32, I32], I32),
+            ("i32_mul", &[I32, I32], I32),
+            ("i32_and", &[I32, I32], I32),
+            ("i32_or", &[I32, I32], I32),
+            ("i32_xor", &[I32, I32], I32),
+            ("i32_shl", &[I32, I32], I32),
+            ("i32_shr_signed", &[I32, I32], I32),
+            ("i32_shr_unsigned", &[I32, I32], I32),
+            ("i32_rotl", &[I32, I32], I32),
+            ("i32_rotr", &[I32, I32], I32),
+            ("i32_eq", &[I32, I32], I32),
+            ("i32_eqz", &[I32], I32),
+            ("i32_ne", &[I32, I32], I32),
+            ("i32_lt_unsigned", &[I32, I32], I32),
+            ("i32_lt_signed", &[I32, I32], I32),
+            ("i32_gt_unsigned", &[I32, I32], I32),
+            ("i32_gt_signed", &[I32, I32], I32),
+            ("i32_lte_unsigned", &[I32, I32], I32),
+            ("i32_lte_signed", &[I32, I32], I32),
+            ("i32_gte_unsigned", &[I32, I32], I32),
+            ("i32_gte_signed", &[I32, I32], I32),
+            ("i32_wrap_i64", &[I64], I32),
+            ("i32_extend_8s", &[I32], I32),
+            ("i32_extend_16s", &[I32], I32),
+            ("i32_reinterpret_f32", &[F32], I32),
+            ("i64_add", &[I64, I64], I64),
+            ("i64_sub", &[I64, I64], I64),
+            ("i64_mul", &[I64, I64], I64),
+            ("i64_and", &[I64, I64], I64),
+            ("i64_xor", &[I64, I64], I64),
+            ("i64_shr_signed", &[I64, I64], I64),
+            ("i64_rotl", &[I64, I64], I64),
+            ("i64_eq", &[I64, I64], I32),
+            ("i64_eqz", &[I64], I32),
+            ("i64_lt_unsigned", &[I64, I64], I32),
+            ("i64_gte_signed", &[I64, I64], I32),
+            ("i64_extend_i32u", &[I32], I64),
+            ("i64_extend_i32s", &[I32], I64),
+            ("i64_reinterpret_f64", &[F64], I64),
+            ("f32_abs", &[F32], F32),
+            ("f32_ceil", &[F32], F32),
+            ("f32_sqrt", &[F32], F32),
+            ("f32_add", &[F32, F32], F32),
+            ("f32_mul", &[F32, F32], F32),
+            ("f32_min", &[F32, F32], F32),
+            ("f32_eq", &[F32, F32], I32),
+            ("f32_le", &[F32, F32], I32),
+            ("f32_convert_i32s", &[I32], F32),
+            ("f32_convert_i64u", &[I64], F32),
+            ("f32_demote_f64", &[F64], F32),
+            ("f32_reinterpret_i32", &[I32], F32),
+            ("f32_copysign", &[F32, F32], F32),
+            ("f64_floor", &[F64], F64),
+            ("f64_trunc", &[F64], F64),
+            ("f64_sub", &[F64, F64], F64),
+            ("f64_div", &[F64, F64], F64),
+            ("f64_max", &[F64, F64], F64),
+            ("f64_ne", &[F64, F64], I32),
+            ("f64_gt", &[F64, F64], I32),
+            ("f64_promote_f32", &[F32], F64),
+            ("f64_convert_i32u", &[I32], F64),
+            ("f64_convert_i64s", &[I64], F64),
+            ("f64_reinterpret_i64", &[I64], F64),
+            ("f64_copysign", &[F64, F64], F64),
+        ];
+        match rng.below(10) {
+            0..=5 => {
+                let (name, ins, outt) = *rng.pick(OPS);
+                for t in ins {
+                    self.push(*t, rng);
+                }
+                self.h0(name);
+                self.consume(outt, rng);
+            }
+            6 if self.depth < 3 => {
+                // block / loop / if with empty type
+                self.depth += 1;
+                let k = rng.below(3);
+                match k {
+                    0 => self.h0("block"),
+                    1 => self.h0("loop_stmt"),
+                    _ => {
+                        self.push(I32, rng);
+                        self.h0("if_stmt")
+                    }
+                }
+                let n = rng.below(3);
+                for _ in 0..n {
+                    self.stmt(rng, has_mem0);
+                }
+                if rng.chance(1, 3) {
+                    self.push(I32, rng);
+                    self.hu("br_if", rng.below(self.depth as usize) as u32);
+                }
+                if k == 2 && rng.bool() {
+                    self.h0("else_stmt");
+                    self.h0("nop");
+                }
+                self.h0("end");
+                self.depth -= 1;
+            }
+            7 => {
+                let t = *rng.pick(&[I32, I64, F32, F64]);
+                self.push(t, rng);
+                self.push(t, rng);
+                self.push(I32, rng);
+                self.h0("select");
+                self.consume(t, rng);
+            }
+            8 if has_mem0 => {
+                let mut a = blank_args();
+                a.u[0] = rng.below(256) as u32;
+                self.h("i32_const", &a);
+                let (name, al, t, store): (&str, u8, VT, bool) = *rng.pick(&[
+                    ("i32_load", 2, I32, false),
+                    ("i64_load", 3, I64, false),
+                    ("f32_load", 2, F32, false),
+                    ("f64_load", 3, F64, false),
+                    ("i32_load8_s", 0, I32, false),
+                    ("i32_load16_u", 1, I32, false),
+                    ("i64_load32_s", 2, I64, false),
+                    ("i32_store", 2, I32, true),
+                    ("i64_store", 3, I64, true),
+                    ("f64_store", 3, F64, true),
+                    ("i32_store8", 0, I32, true),
+                ]);
+                let align = rng.below(al as usize + 1) as u8;
+                let offset = rng.below(1000) as u64;
+                let mut m = blank_args();
+                m.memarg = wasmparser::MemArg { align, max_align: al, offset, memory: 0 };
+                m.memarg_enc = wasm_encoder::MemArg { offset, align: align as u32, memory_index: 0 };
+                if store {
+                    self.push(t, rng);
+                    self.h(name, &m);
+                } else {
+                    self.h(name, &m);
+                    self.consume(t, rng);
+                }
+            }
+            _ => {
+                self.h0("nop");
+            }
+        }
+    }
+}
+
+impl<'m, 'a> Driver<'m, 'a> {
+    fn op_build_rich_fn(&mut self, rng: &mut Rng) -> Result<bool, (String, PanicInfo)> {
+        use wirm::module_builder::AddLocal;
+        let tys = [VT::I32, VT::I64, VT::F32, VT::F64];
+        let np = rng.below(5);
+        let nr = rng.below(5);
+        let p: Vec<VT> = (0..np).map(|_| *rng.pick(&tys)).collect();
+        let r: Vec<VT> = (0..nr).map(|_| *rng.pick(&tys)).collect();
+        let uid = self.model.next_uid;
+        self.model.next_uid += 1;
+        let ident = format!("L:{}", uid);
+        let pd: Vec<DataType> = p.iter().map(|t| vt_dt(*t).unwrap()).collect();
+        let rd: Vec<DataType> = r.iter().map(|t| vt_dt(*t).unwrap()).collect();
+        let nlocals = rng.below(6);
+        let local_tys: Vec<DataType> = (0..nlocals).map(|_| random_local_type(rng)).collect();
+        let has_mem0 = self.model.mems.get(&0).map(|e| e.alive && !e.mem64).unwrap_or(false);
+        let name = if rng.bool() { Some(format!("rich{}", uid)) } else { None };
+        let nstmts = rng.range(2, 10);
+        // the body is built outside catch only as far as the model is concerned; all wirm calls are inside
+        let model_ref: &Model = &self.model;
+        let mut rb_rng = rng.clone();
+        let built = catch(|| {
+            let mut rb = RichBody { fb: FunctionBuilder::new(&pd, &rd), syms: vec![], model: model_ref, vars: vec![], depth: 0 };
+            let mut id_errors: Vec<String> = vec![];
+            for (i, t) in p.iter().enumerate() {
+                rb.vars.push((i as u32, *t));
+            }
+            // locals may be added before and in between instructions
+            let mut declared = 0u32;
+            let mut a = blank_args();
+            a.u[0] = crate::gen::FP_BASE + uid;
+            rb.h("i32_const", &a);
+            rb.h0("drop");
+            let mut pending: Vec<DataType> = local_tys.clone();
+            for s in 0..nstmts {
+                if !pending.is_empty() && (s == 0 || rb_rng.bool()) {
+                    let dt = pending.remove(0);
+                    let got = rb.fb.add_local(dt);
+                    let want = p.len() as u32 + declared;
+                    if *got != want {
+                        id_errors.push(format!("FunctionBuilder::add_local returned {} for local #{} of a function with {} params", *got, declared, p.len()));
+                    }
+                    if let Some(vt) = [VT::I32, VT::I64, VT::F32, VT::F64].iter().find(|v| vt_dt(**v) == Some(dt)) {
+                        rb.vars.push((want, *vt));
+                    }
+                    declared += 1;
+                }
+                rb.stmt(&mut rb_rng, has_mem0);
+            }
+            for dt in pending {
+                let got = rb.fb.add_local(dt);
+                let want = p.len() as u32 + declared;
+                if *got != want {
+                    id_errors.push(format!("FunctionBuilder::add_local returned {} expected {}", *got, want));
+                }
+                declared += 1;
+            }
+            for t in &r {
+                rb.push(*t, &mut rb_rng);
+            }
+            if rb_rng.chance(1, 4) {
+                rb.h0("return_stmt");
+            }
+            (rb.fb, rb.syms, id_errors)
+        });
+        *rng = rb_rng;
+        let (mut fb, mut syms, id_errors) = match built {
+            Ok(x) => x,
+            Err(pn) => return Err(("FunctionBuilder helpers".into(), pn)),
+        };
+        syms.push("End:0b".to_string());
+        let m = &mut *self.m;
+        let name2 = name.clone();
+        let res = catch(move || {
+            if let Some(n) = name2 {
+                fb.set_name(n);
+            }
+            let fid = fb.finish_module(m);
+            let ty = m.functions.get_type_id(fid);
+            (*fid, *ty)
+        });
+        let (fid, ty) = match res {
+            Ok(x) => x,
+            Err(pn) => return Err(("FunctionBuilder::finish_module".into(), pn)),
+        };
+        self.model.log.push(format!(
+            "build fn {} sig {:?}->{:?} locals [{}] {} instrs name {:?} -> FunctionID({})",
+            ident,
+            p,
+            r,
+            local_tys.iter().map(|d| dt_str(*d)).collect::<Vec<_>>().join(","),
+            syms.len(),
+            name,
+            fid
+        ));
+        for e in id_errors {
+            self.model.flat.insert(format!("~iderror[{}]", self.model.flat.len()), e);
+        }
+        self.model.flat.insert(format!("func[{}].sig", ident), sig_str(&p, &r));
+        self.model.flat.insert(format!("func[{}].locals", ident), local_tys.iter().map(|d| dt_str(*d)).collect::<Vec<_>>().join(","));
+        self.model.bodies.insert(ident.clone(), syms);
+        if let Some(n) = name {
+            self.model.flat.insert(format!("name.func[{}]", ident), n);
+        }
+        self.model.funcs.insert(
+            fid,
+            Ent { ident, alive: true, local: true, sig: Some((p, r)), type_id: Some(ty), imports_id: None, vt: None, mutable: false, mem64: false, added: true },
+        );
+        Ok(true)
+    }
+
+    /// C14: add locals to an existing local function through one of the local-adding APIs
+    fn op_add_locals_existing(&mut self, rng: &mut Rng) -> Result<bool, (String, PanicInfo)> {
+        use wirm::module_builder::AddLocal;
+        let hosts = self.live_funcs(|e| e.local && e.sig.is_some());
+        if hosts.is_empty() {
+            return Ok(false);
+        }
+        let fid = *rng.pick(&hosts);
+        let e = self.model.funcs[&fid].clone();
+        let nparams = e.sig.as_ref().unwrap().0.len() as u32;
+        let key = format!("func[{}].locals", e.ident);
+        let cur = self.model.flat.get(&key).cloned().unwrap_or_default();
+        let ncur = if cur.is_empty() { 0 } else { split_types(&cur).len() as u32 };
+        let n = rng.range(1, 3);
+        let tys: Vec<DataType> = (0..n).map(|_| random_local_type(rng)).collect();
+        let path = rng.below(4);
+        let path_name = ["FunctionModifier::add_local", "FunctionModifier::add_locals", "LocalFunction::add_local", "ModuleIterator::add_local"][path];
+        let m = &mut *self.m;
+        let tys2 = tys.clone();
+        let res = catch(move || -> Vec<Option<u32>> {
+            match path {
+                0 => {
+                    let mut fm = m.functions.get_fn_modifier(FunctionID(fid)).expect("modifier");
+                    tys2.iter().map(|t| Some(*fm.add_local(*t))).collect()
+                }
+                1 => {
+                    let mut fm = m.functions.get_fn_modifier(FunctionID(fid)).expect("modifier");
+                    fm.add_locals(&tys2);
+                    tys2.iter().map(|_| None).collect()
+                }
+                2 => {
+                    let lf = m.functions.unwrap_local(FunctionID(fid));
+                    tys2.iter().map(|t| Some(*lf.add_local(*t))).collect()
+                }
+                _ => {
+                    let mut it = ModuleIterator::new(m, &vec![]);
+                    use wirm::iterator::iterator_trait::Iterator as WI;
+                    // walk to the target function
+                    loop {
+                        if let (Location::Module { func_idx, .. }, _) = it.curr_loc() {
+                            if *func_idx == fid {
+                                break;
+                            }
+                        }
+                        if it.next().is_none() {
+                            panic!("iterator never reached FunctionID({})", fid);
+                        }
+                    }
+                    tys2.iter().map(|t| Some(*it.add_local(*t))).collect()
+                }
+            }
+        });
+        let got = match res {
+            Ok(g) => g,
+            Err(p) => return Err((path_name.into(), p)),
+        };
+        self.model.log.push(format!(
+            "{} on FunctionID({}) = {} types [{}]",
+            path_name,
+            fid,
+            e.ident,
+            tys.iter().map(|d| dt_str(*d)).collect::<Vec<_>>().join(",")
+        ));
+        for (k, g) in got.iter().enumerate() {
+            let want = nparams + ncur + k as u32;
+            if let Some(g) = g {
+                if *g != want {
+                    self.model.flat.insert(
+                        format!("~iderror[{}]", self.model.flat.len()),
+                        format!("{} returned LocalID({}) but the function has {} params and {} locals declared before it", path_name, g, nparams, ncur + k as u32),
+                    );
+                }
+            }
+        }
+        let mut all = if cur.is_empty() { vec![] } else { split_types(&cur) };
+        all.extend(tys.iter().map(|d| dt_str(*d).to_string()));
+        self.model.flat.insert(key, all.join(","));
+        Ok(true)
+    }
+}
+
+/// split "i32,(ref null (module 6)),f32" at top-level commas
+fn split_types(s: &str) -> Vec<String> {
+    let mut out = vec![];
+    let mut cur = String::new();
+    let mut depth = 0;
+    for c in s.chars() {
+        match c {
+            '(' => {
+                depth += 1;
+                cur.push(c)
+            }
+            ')' => {
+                depth -= 1;
+                cur.push(c)
+            }
+            ',' if depth == 0 => out.push(std::mem::take(&mut cur)),
+            _ => cur.push(c),
+        }
+    }
+    if !cur.is_empty() {
+        out.push(cur);
+    }
+    out
+}
+
 /// Evaluate an outcome: fills violations into `out`. `prop` only labels the details.
 pub fn judge(
     g: &GenModule,
@@ -1544,6 +2121,10 @@ pub fn judge(
             json!({"history": hist, "panic": p.json(), "base_wat": crate::props::c01::text_of(&g.bytes)}),
         );
         return;
+    }
+    for (k, v) in o.model.flat.iter().filter(|(k, _)| k.starts_with("~iderror[")) {
+        let _ = k;
+        out.violate("wrong-id-returned".to_string(), json!({"history": hist, "what": v}));
     }
     let must_fail = !o.model.must_fail.is_empty();
     match &o.encoded {
